@@ -10,6 +10,8 @@ from ..lib import FAILED, EPS
 from ..runner import Sub
 
 ID = 'C09'
+TECHNIQUE = 'PBT against reference models (exact rational Menger / L-method residual intervals, reference DFDT loop) + loop guard'
+LEVEL_TEXT = 'Exploration: Arg-opt decided when unique by interval margin; ties only get structural clauses; L-method first-minimum clause also on 105-400 point curves. Finds counter-examples (shrunk to a replay file); never proves absence.'
 RULE = ('Cases = (valid curve n >= 3, n >= 5 for the L-method; Fit x Cost x Refinement x limit in [4, n+5]).  '
         'Reference models written from the statement, sharing only uts.gradient.cfd/csd and '
         'uts.thresholding.isodata with the implementation: curvature arg-max over the interior; DFDT '
